@@ -6,6 +6,7 @@
 #include "../../engine/vsched/vsched.h"
 
 #include <tulz/threading/Thread.h>
+#include <system_error>
 #include <tulz/threading/ThreadPool.h>
 
 #include <cstring>
@@ -242,12 +243,13 @@ void run_pool(const Case &c) {
 }
 
 // ------------------------------------------------------------------ tulz::Thread (C20)
-constexpr unsigned ALIVE = 0xA11CE5ED, DEAD = 0xDEADDEAD;
+constexpr unsigned ALIVE = 0xA11CE5ED, DEAD = 0xDEADDEAD, MOVED = 0x30BED0FF;
 int calls = 0, exits = 0; bool start_returned = false, child_began_after_return = false;
 int g_a1, g_a2;
 int copies_alive = 0;
 
 void thread_body_enter(unsigned magic, const char *kind) {
+    if (magic == MOVED) pviolation("C20", "DEAD_CALLABLE", "the new thread invoked a %s callable that had been moved from (its contents live elsewhere or nowhere)", kind);
     if (magic != ALIVE) pviolation("C20", "DEAD_CALLABLE", "the new thread invoked a %s callable that had already been destroyed (canary %08x)", kind, magic);
     if (++calls > 1) pviolation("C20", "CALLED_TWICE", "the callable was invoked %d times", calls);
     if (start_returned) child_began_after_return = true;
@@ -260,6 +262,7 @@ struct Small {
     unsigned magic; int tag;
     explicit Small(int t) : magic(ALIVE), tag(t) { ++copies_alive; }
     Small(const Small &o) : magic(o.magic == ALIVE ? ALIVE : o.magic), tag(o.tag) { ++copies_alive; }
+    Small(Small &&o) noexcept : magic(o.magic), tag(o.tag) { ++copies_alive; o.magic = MOVED; }   // a moved-from callable is not a live copy
     ~Small() { magic = DEAD; --copies_alive; }
     void operator()() { thread_body_enter(magic, "small closure"); thread_body_exit(); }
     void operator()(int &a) { thread_body_enter(magic, "small closure"); ++a; thread_body_exit(); }
@@ -269,6 +272,7 @@ struct Large {
     unsigned magic; char payload[256]; unsigned magic2;
     explicit Large(int t) : magic(ALIVE), magic2(ALIVE) { memset(payload, t, sizeof payload); ++copies_alive; }
     Large(const Large &o) : magic(o.magic), magic2(o.magic2) { memcpy(payload, o.payload, sizeof payload); ++copies_alive; }
+    Large(Large &&o) noexcept : magic(o.magic), magic2(o.magic2) { memcpy(payload, o.payload, sizeof payload); ++copies_alive; o.magic = MOVED; o.magic2 = MOVED; }
     ~Large() { magic = DEAD; magic2 = DEAD; memset(payload, 0xDD, sizeof payload); --copies_alive; }
     void check() { for (char ch : payload) if (ch != payload[0] || (unsigned char)ch == 0xDD) pviolation("C20", "DEAD_CALLABLE", "large closure payload was overwritten or destroyed"); if (magic2 != ALIVE) thread_body_enter(magic2, "large closure"); }
     void operator()() { thread_body_enter(magic, "large closure"); check(); thread_body_exit(); }
@@ -317,14 +321,29 @@ void run_thread(const Case &c) {
         if (viaCtor && kind != 3) tp = reinterpret_cast<Thread *>(storage); else tp = new (storage) Thread();
         Thread &t = *tp;
         if (viaCtor && kind != 3) label("via_constructor");
-        switch (kind) {
-        case 0:
-            if (nargs == 0) launch<0>(t, viaCtor, [] { return &fn0; }); else if (nargs == 1) launch<1>(t, viaCtor, [] { return &fn1; }); else launch<2>(t, viaCtor, [] { return &fn2; });
-            break;
-        case 1: launch_n(t, nargs, viaCtor, [] { return Small(7); }); break;
-        case 2: launch_n(t, nargs, viaCtor, [] { return Large(9); }); break;
-        default: t.start(new LogRunnable()); nargs = 0; break;
+        // injected fault (h[5] = k > 0): the first k thread creations fail with EAGAIN ("resource temporarily unavailable"); start()
+        // reports that as std::system_error and the caller simply tries again - the start that succeeds must satisfy the property
+        int faults = (unsigned)hget(c, 5, 0) % 4;
+        if (faults) { vsched::fail_next_thread_creations(faults); label("thread_creation_fault_injected"); }
+        LogRunnable *runnable = kind == 3 ? new LogRunnable() : nullptr;
+        for (int attempt = 0;; ++attempt) {
+            try {
+                switch (kind) {
+                case 0:
+                    if (nargs == 0) launch<0>(t, viaCtor, [] { return &fn0; }); else if (nargs == 1) launch<1>(t, viaCtor, [] { return &fn1; }); else launch<2>(t, viaCtor, [] { return &fn2; });
+                    break;
+                case 1: launch_n(t, nargs, viaCtor, [] { return Small(7); }); break;
+                case 2: launch_n(t, nargs, viaCtor, [] { return Large(9); }); break;
+                default: t.start(runnable); nargs = 0; break;
+                }
+                break;
+            } catch (const std::system_error &e) {
+                if (!faults || attempt >= 8) pviolation("C20", "START_FAILED", "start() threw std::system_error (%s) on attempt %d although at most %d creations were made to fail", e.what(), attempt + 1, faults);
+                if (calls || r_runs) pviolation("C20", "CALLED_TWICE", "start() reported failure but the callable had been invoked");
+                label("start_retried_after_failure");
+            }
         }
+        vsched::fail_next_thread_creations(0);
         start_returned = true;
         clobber_stack();            // the starting thread keeps using its stack
         for (int i = 0; i < polls; ++i) {
